@@ -49,6 +49,7 @@ type scanRecord struct {
 	seq      int64
 	started  int64
 	failed   bool
+	fresh    bool // disk scenarios: the snapshot was verified equal to the disk when it returned
 }
 
 type cmdRecord struct {
@@ -113,6 +114,7 @@ type harness struct {
 	cycleClean     bool
 	cycleN         int
 	cycleScanStart int64
+	cycleFresh     bool // both scans of the last evaluated cycle were verified equal to the disk
 	expectedPost   map[string]*core.Entry
 	pending        map[string][]pendingResult
 
@@ -503,9 +505,9 @@ func (h *harness) oneWay() bool {
 
 // onScanReturn records the snapshot; once both endpoints have returned the
 // scan of the same cycle, the plan for that triple is evaluated (C06).
-func (h *harness) onScanReturn(side string, ancestor, content *core.Entry, preserve bool, started int64) {
+func (h *harness) onScanReturn(side string, ancestor, content *core.Entry, preserve bool, started int64, fresh ...bool) {
 	h.mu.Lock()
-	h.lastScan[side] = &scanRecord{n: h.scanCount[side], ancestor: ancestor, content: content, preserve: preserve, seq: h.next(), started: started}
+	h.lastScan[side] = &scanRecord{n: h.scanCount[side], ancestor: ancestor, content: content, preserve: preserve, seq: h.next(), started: started, fresh: len(fresh) > 0 && fresh[0]}
 	a, b := h.lastScan["alpha"], h.lastScan["beta"]
 	// The controller always scans both endpoints of a cycle concurrently and
 	// starts the next pair only after both returned: equal invocation numbers
@@ -537,8 +539,17 @@ func (h *harness) checkPlan(a, b *scanRecord) {
 	// behind, this cycle must plan nothing for either endpoint or the archive.
 	prevClean := h.cycleClean && h.cycleN == a.n-1 && h.cycleN > 0 &&
 		deepEqual(h.expectedPost["alpha"], a.content) && deepEqual(h.expectedPost["beta"], b.content)
+	// The same claim on real endpoints without assuming what this cycle's scans
+	// return: the previous cycle's snapshots were verified equal to the disk,
+	// everything it planned was applied exactly, no fault was ever injected and
+	// the user has not touched either root since those scans began. Then the
+	// roots hold exactly what that cycle left and correct scans must say so
+	// (a scan that returns an older snapshot here is what C42 forbids).
+	prevExact := h.disk != nil && h.cycleClean && h.cycleFresh && h.ideal && h.cycleN == a.n-1 && h.cycleN > 0 &&
+		h.userSeq["alpha"] < h.cycleScanStart && h.userSeq["beta"] < h.cycleScanStart
 	h.cycleClean, h.cycleN = true, a.n
 	h.cycleScanStart = min(a.started, b.started)
+	h.cycleFresh = a.fresh && b.fresh
 	post := func(content *core.Entry, ts []*core.Change) *core.Entry {
 		out := cloneEntry(content)
 		for _, t := range ts {
@@ -552,6 +563,15 @@ func (h *harness) checkPlan(a, b *scanRecord) {
 	}
 	h.expectedPost = map[string]*core.Entry{"alpha": post(a.content, at), "beta": post(b.content, bt)}
 	h.mu.Unlock()
+	if prevExact {
+		h.s.Count("probe.exact_cycles_on_disk", 1)
+	}
+	if prevExact && !prevClean {
+		h.s.Count("probe.exact_cycle_followed_by_unexpected_snapshot", 1)
+		if len(at)+len(bt)+len(anc) > 0 {
+			h.s.Violate("C04", "not-a-fixpoint", "cycle-after-exact-cycle", "the previous cycle started from snapshots equal to the disk and applied all of its changes exactly, the user has not acted since, yet this cycle plans %d alpha changes, %d beta changes and %d archive changes; mode %v ancestor %s alpha snapshot %s beta snapshot %s (expected alpha %s beta %s)", len(at), len(bt), len(anc), h.mode, render(a.ancestor), render(alpha), render(beta), render(h.expectedPost["alpha"]), render(h.expectedPost["beta"]))
+		}
+	}
 	if prevClean {
 		h.s.Count("probe.fixpoint_cycles_checked", 1)
 		if len(at)+len(bt)+len(anc) > 0 {
@@ -793,6 +813,16 @@ func (h *harness) userOp(op simkit.Op) {
 	case "chmod":
 		if cur := lookup(t, path); cur != nil && cur.Kind == core.EntryKind_File && h.preserve[side] {
 			cur.Executable = !cur.Executable
+		}
+	case "cp", "mv":
+		// path -> S[2] on the same side (a copy or a rename of a file or tree).
+		to := op.Str(2)
+		if cur := lookup(t, path); cur != nil && path != "" && to != "" && !pathRelated(path, to) {
+			t = ensureParents(t, to)
+			t, _ = setAt(t, to, cloneEntry(cur))
+			if op.Kind == "mv" {
+				t, _ = setAt(t, path, nil)
+			}
 		}
 	case "rootdel":
 		t = nil
